@@ -193,6 +193,15 @@ def run_case(cs):
                                     {"kind": "new-format-gate", "have_verified_old": have_verified_old, "have_failed": have_failed},
                                     ctx,
                                 )
+                    if not is_first:
+                        have = {f for f, dg, a, _ in ents}
+                        for f in set(fm):
+                            if f in known_fmt and f not in have:
+                                cs.violation(
+                                    "requested-recorded-format-without-entry",
+                                    {"kind": "entry-missing", "altered": current[rel] != original[rel], "formats_requested": len(set(fm))},
+                                    {"steps": steps, "path": rel, "format": f, "have": sorted(have)},
+                                )
                     if not is_first and newfmt:
                         cs.count("gens_newformat")
                     if not is_first and current[rel] != original[rel] and not have_failed:
